@@ -5,21 +5,6 @@ import AGH.Lemmas.DHCPOps
 namespace AGH.C10
 open AGH
 
-/-- The hardware addresses in the operation have the Ethernet length. -/
-def Op.wf : Op → Prop
-  | .discover m => m.length = 6
-  | .request m .. => m.length = 6
-  | .decline m .. => m.length = 6
-  | .release m .. => m.length = 6
-  | .addStatic m .. => m.length = 6
-  | .updStatic m .. => m.length = 6
-  | .rmStatic m .. => m.length = 6
-  | .sleep _ => True
-  | .restart => True
-
-instance (op : Op) : Decidable op.wf := by
-  cases op <;> unfold Op.wf <;> infer_instance
-
 theorem checkLease_some {mac : Bytes} {ip : Nat} {s : State} {l : Lease} {b : Bool}
     (h : checkLease mac ip s = (some l, b)) : l ∈ s.leases ∧ l.mac = mac ∧ l.ip = ip := by
   unfold checkLease at h
@@ -73,14 +58,14 @@ theorem hbrt_some {c : Conf} {mac : Bytes} {sid : Nat} {rp : Bool} {rip ci : Nat
           obtain ⟨h1, h2, _⟩ := checkLease_some hc
           exact ⟨h1, h2⟩
 
-theorem handleDiscover_inv {c : Conf} {s : State} {mac : Bytes} (h : Inv c s) (hlen : mac.length = 6) :
+theorem handleDiscover_inv {c : Conf} {s : State} {mac : Bytes} (h : Inv c s) :
     Inv c (handleDiscover c mac s).1 := by
   unfold handleDiscover
   cases hf : findLease mac s with
   | some l => exact Inv_store h
   | none =>
     simp only []
-    have hsp := (allocate_spec h hlen (findLease_none hf)).1
+    have hsp := (allocate_spec h (findLease_none hf)).1
     rcases hal : allocateLease c mac s with ⟨s1, r⟩
     rw [hal] at hsp
     rcases r with _ | _ | l <;> exact Inv_store hsp
@@ -97,8 +82,7 @@ theorem handleRequest_inv {O : Oracle} {c : Conf} {s : State} {mac : Bytes} {sid
     · exact Inv_store h
     · exact Inv_store (commitLease_inv hn h hl)
 
-theorem handleDecline_inv {c : Conf} {s : State} {mac : Bytes} {rp : Bool} {rip ci : Nat} (h : Inv c s)
-    (hlen : mac.length = 6) : Inv c (handleDecline c mac rp rip ci s).1 := by
+theorem handleDecline_inv {c : Conf} {s : State} {mac : Bytes} {rp : Bool} {rip ci : Nat} (h : Inv c s) : Inv c (handleDecline c mac rp rip ci s).1 := by
   unfold handleDecline
   simp only []
   cases hf : s.leases.find? (fun l => l.mac == mac && l.ip == msgIP rp rip ci) with
@@ -121,7 +105,7 @@ theorem handleDecline_inv {c : Conf} {s : State} {mac : Bytes} {rp : Bool} {rip 
         intro y hy
         have := hclean (by unfold rmDynamicLease at hr; rw [hr]) y (by unfold rmDynamicLease at hr; rw [hr]; exact hy)
         rw [← hold]; exact this.1
-      have hsp := allocate_spec hi1 hlen hm1
+      have hsp := allocate_spec hi1 hm1
       rcases hal : allocateLease c mac s1 with ⟨s2, r⟩
       rw [hal] at hsp
       obtain ⟨hi2, _, _, hor⟩ := hsp
@@ -169,8 +153,7 @@ theorem handleRelease_inv {c : Conf} {s : State} {mac : Bytes} {rp : Bool} {rip 
 
 /-! ### static-lease API -/
 
-theorem addStaticCore_inv {c : Conf} {s : State} {mac : Bytes} {ip : Nat} {host : Bytes} (h : Inv c s)
-    (hlen : mac.length = 6) : Inv c (addStaticCore c mac ip host s).1 := by
+theorem addStaticCore_inv {c : Conf} {s : State} {mac : Bytes} {ip : Nat} {host : Bytes} (h : Inv c s) : Inv c (addStaticCore c mac ip host s).1 := by
   unfold addStaticCore
   have hi1 := rmDynamicLease_inv mac ip host h
   have hclean := rmDynLoop_clean c mac ip host s.leases [] s (by intro x hx; cases hx)
@@ -186,7 +169,7 @@ theorem addStaticCore_inv {c : Conf} {s : State} {mac : Bytes} {ip : Nat} {host 
     cases hadd : addLease c { id := s1.nextId, mac := mac, ip := ip, host := host, static := true, exp := 0 } s1.fresh.2 with
     | error e => exact Inv_store (Inv_fresh hi1)
     | ok s2 =>
-      refine Inv_store (Inv_add (Inv_fresh hi1) hadd ?_ ?_ hlen ?_ ?_)
+      refine Inv_store (Inv_add (Inv_fresh hi1) hadd ?_ ?_ ?_ ?_)
       · intro y hy; exact (hcl y hy).2
       · intro y hy; exact (hcl y hy).1
       · simp [State.fresh]
@@ -195,8 +178,7 @@ theorem addStaticCore_inv {c : Conf} {s : State} {mac : Bytes} {ip : Nat} {host 
         show y.id ≠ s1.nextId
         omega
 
-theorem addStatic_inv {O : Oracle} {c : Conf} {s : State} {mac : Bytes} {ip : Nat} {raw : Bytes} (h : Inv c s)
-    (hlen : mac.length = 6) : Inv c (addStatic O c mac ip raw s).1 := by
+theorem addStatic_inv {O : Oracle} {c : Conf} {s : State} {mac : Bytes} {ip : Nat} {raw : Bytes} (h : Inv c s) : Inv c (addStatic O c mac ip raw s).1 := by
   unfold addStatic
   split
   · exact h
@@ -204,7 +186,7 @@ theorem addStatic_inv {O : Oracle} {c : Conf} {s : State} {mac : Bytes} {ip : Na
   · exact h
   split
   · exact h
-  · exact addStaticCore_inv h hlen
+  · exact addStaticCore_inv h
 
 theorem rmLease_spec {c : Conf} {s s' : State} {mac : Bytes} {ip : Nat} {host : Bytes}
     (hr : rmLease c mac ip host s = .ok s') (hne : s.leases ≠ []) :
@@ -308,7 +290,7 @@ theorem updStaticCheck_none {O : Oracle} {c : Conf} {s : State} {mac : Bytes} {i
   refine ⟨by simpa using h2, by simpa using h3, h4, by simpa using h5⟩
 
 theorem updStaticCore_inv {c : Conf} {s : State} {mac : Bytes} {ip : Nat} {host : Bytes} {found : Lease}
-    (h : Inv c s) (hlen : mac.length = 6) (hfound : findLease mac s = some found)
+    (h : Inv c s) (hfound : findLease mac s = some found)
     (hdh : heldByOther s (s.hosts host) mac = false)
     (hdi : heldByOther s (s.ips ip) mac = false)
     (hsub : inSubnet c ip = true) : Inv c (updStaticCore c found mac ip host s).1 := by
@@ -321,7 +303,7 @@ theorem updStaticCore_inv {c : Conf} {s : State} {mac : Bytes} {ip : Nat} {host 
     cases hadd : addLease c { id := s1.nextId, mac := mac, ip := ip, host := host, static := true, exp := 0 } s1.fresh.2 with
     | error e => exact Inv_fresh hi1
     | ok s2 =>
-      refine Inv_store (Inv_add (Inv_fresh hi1) hadd ?_ ?_ hlen ?_ ?_)
+      refine Inv_store (Inv_add (Inv_fresh hi1) hadd ?_ ?_ ?_ ?_)
       · intro y hy; exact (hcl y hy).2
       · intro y hy; exact (hcl y hy).1
       · simp [State.fresh]
@@ -330,8 +312,7 @@ theorem updStaticCore_inv {c : Conf} {s : State} {mac : Bytes} {ip : Nat} {host 
         show y.id ≠ s1.nextId
         omega
 
-theorem updStatic_inv {O : Oracle} {c : Conf} {s : State} {mac : Bytes} {ip : Nat} {raw : Bytes} (h : Inv c s)
-    (hlen : mac.length = 6) : Inv c (updStatic O c mac ip raw s).1 := by
+theorem updStatic_inv {O : Oracle} {c : Conf} {s : State} {mac : Bytes} {ip : Nat} {raw : Bytes} (h : Inv c s) : Inv c (updStatic O c mac ip raw s).1 := by
   unfold updStatic
   cases hf : findLease mac s with
   | none => exact h
@@ -344,7 +325,7 @@ theorem updStatic_inv {O : Oracle} {c : Conf} {s : State} {mac : Bytes} {ip : Na
       · exact h
       · next hchk =>
         obtain ⟨h1, h2, _, h4⟩ := updStaticCheck_none hchk
-        exact updStaticCore_inv h hlen hf h1 h2 h4
+        exact updStaticCore_inv h hf h1 h2 h4
 
 theorem rmStatic_inv {c : Conf} {s : State} {mac : Bytes} {ip : Nat} {raw : Bytes} (h : Inv c s) :
     Inv c (rmStatic c mac ip raw s).1 := by
@@ -360,14 +341,14 @@ theorem rmStatic_inv {c : Conf} {s : State} {mac : Bytes} {ip : Nat} {raw : Byte
 
 theorem resetLoop_inv (O : Oracle) (c : Conf) : ∀ (d : List DLease) (s : State), Inv c s →
     (d.map (·.ip)).Nodup → (d.map (·.mac)).Nodup →
-    (∀ x ∈ d, x.static = false → c.start ≤ x.ip ∧ x.ip ≤ c.stop) → (∀ x ∈ d, x.mac.length = 6) →
+    (∀ x ∈ d, x.static = false → c.start ≤ x.ip ∧ x.ip ≤ c.stop) →
     (∀ x ∈ d, ∀ y ∈ s.leases, y.ip ≠ x.ip ∧ y.mac ≠ x.mac) →
     Inv c (resetLoop O c d s) := by
   intro d
   induction d with
-  | nil => intro s h _ _ _ _ _; exact h
+  | nil => intro s h _ _ _ _; exact h
   | cons x rest ih =>
-    intro s h hip hmac hpool hlen hfresh
+    intro s h hip hmac hpool hfresh
     rw [List.map_cons, List.nodup_cons] at hip hmac
     unfold resetLoop
     simp only []
@@ -375,11 +356,10 @@ theorem resetLoop_inv (O : Oracle) (c : Conf) : ∀ (d : List DLease) (s : State
       fun z hz y hy => hfresh z (List.mem_cons_of_mem _ hz) y hy
     cases hadd : addLease c { id := s.nextId, mac := x.mac, ip := x.ip, host := (if x.static = true then x.host else validHost O x.host x.ip), static := x.static, exp := x.exp } s.fresh.2 with
     | error e =>
-      exact ih _ (Inv_fresh h) hip.2 hmac.2 (fun z hz => hpool z (List.mem_cons_of_mem _ hz))
-        (fun z hz => hlen z (List.mem_cons_of_mem _ hz)) hrest
+      exact ih _ (Inv_fresh h) hip.2 hmac.2 (fun z hz => hpool z (List.mem_cons_of_mem _ hz)) hrest
     | ok s' =>
       have hi : Inv c s' := by
-        refine Inv_add (Inv_fresh h) hadd ?_ ?_ (hlen x List.mem_cons_self) ?_ ?_
+        refine Inv_add (Inv_fresh h) hadd ?_ ?_ ?_ ?_
         · intro y hy; exact (hfresh x List.mem_cons_self y hy).1
         · intro y hy; exact (hfresh x List.mem_cons_self y hy).2
         · simp [State.fresh]
@@ -387,8 +367,7 @@ theorem resetLoop_inv (O : Oracle) (c : Conf) : ∀ (d : List DLease) (s : State
           have : y.id < s.nextId := h.idLt y hy
           show y.id ≠ s.nextId
           omega
-      refine ih _ hi hip.2 hmac.2 (fun z hz => hpool z (List.mem_cons_of_mem _ hz))
-        (fun z hz => hlen z (List.mem_cons_of_mem _ hz)) ?_
+      refine ih _ hi hip.2 hmac.2 (fun z hz => hpool z (List.mem_cons_of_mem _ hz)) ?_
       intro z hz y hy
       rw [(addLease_leases hadd).1] at hy
       rcases List.mem_append.1 hy with hy | hy
@@ -409,13 +388,13 @@ theorem restart_inv {O : Oracle} {c : Conf} {s : State} (h : Inv c s) : Inv c (r
   | none => simpa [hd] using h0
   | some d =>
     simp only []
-    obtain ⟨d1, d2, d3, d4⟩ := h.disk d hd
-    have := resetLoop_inv O c d _ h0 d1 d2 d3 d4 (by intro x _ y hy; simp [State.init] at hy)
+    obtain ⟨d1, d2, d3⟩ := h.disk d hd
+    have := resetLoop_inv O c d _ h0 d1 d2 d3 (by intro x _ y hy; simp [State.init] at hy)
     simpa [hd] using this
 
 /-! ### one step -/
 
-theorem Inv_step {O : Oracle} {c : Conf} {s : State} {op : Op} (h : Inv c s) (hw : op.wf) :
+theorem Inv_step {O : Oracle} {c : Conf} {s : State} {op : Op} (h : Inv c s) :
     Inv c (step O c s op).1 := by
   have h0 : Inv c { s with stale := [] } := Inv_congr h rfl rfl rfl rfl rfl rfl
   unfold step
@@ -425,7 +404,7 @@ theorem Inv_step {O : Oracle} {c : Conf} {s : State} {op : Op} (h : Inv c s) (hw
     simp only []
     split
     · exact h0
-    · exact handleDiscover_inv h0 hw
+    · exact handleDiscover_inv h0
   | request mac sid rp rip ci hn =>
     simp only []
     split
@@ -435,38 +414,36 @@ theorem Inv_step {O : Oracle} {c : Conf} {s : State} {op : Op} (h : Inv c s) (hw
     simp only []
     split
     · exact h0
-    · exact handleDecline_inv h0 hw
+    · exact handleDecline_inv h0
   | release mac rp rip ci =>
     simp only []
     split
     · exact h0
     · exact handleRelease_inv h0
-  | addStatic mac ip hn => exact addStatic_inv h0 hw
-  | updStatic mac ip hn => exact updStatic_inv h0 hw
+  | addStatic mac ip hn => exact addStatic_inv h0
+  | updStatic mac ip hn => exact updStatic_inv h0
   | rmStatic mac ip hn => exact rmStatic_inv h0
   | sleep d => exact Inv_congr h0 rfl rfl rfl rfl rfl rfl
   | restart => exact restart_inv h0
 
 /-! ### histories -/
 
-theorem run_inv {O : Oracle} {c : Conf} : ∀ (ops : List Op) (s : State), Inv c s → (∀ op ∈ ops, op.wf) →
-    Inv c (run O c s ops) := by
+theorem run_inv {O : Oracle} {c : Conf} : ∀ (ops : List Op) (s : State), Inv c s → Inv c (run O c s ops) := by
   intro ops
   induction ops with
-  | nil => intro s h _; exact h
+  | nil => intro s h; exact h
   | cons op rest ih =>
-    intro s h hw
+    intro s h
     unfold run
-    exact ih _ (Inv_step h (hw op List.mem_cons_self)) (fun o ho => hw o (List.mem_cons_of_mem _ ho))
+    exact ih _ (Inv_step h)
 
-/-- The states the model reaches from the empty table by operations whose
-hardware addresses have the Ethernet length. -/
+/-- The states the model reaches from the empty table by any history of operations. -/
 def Reachable (O : Oracle) (c : Conf) (s : State) : Prop :=
-  ∃ ops : List Op, (∀ op ∈ ops, op.wf) ∧ run O c State.init ops = s
+  ∃ ops : List Op, run O c State.init ops = s
 
 theorem Reachable.inv {O : Oracle} {c : Conf} {s : State} (h : Reachable O c s) : Inv c s := by
-  obtain ⟨ops, hw, rfl⟩ := h
-  exact run_inv ops _ (Inv_init c) hw
+  obtain ⟨ops, rfl⟩ := h
+  exact run_inv ops _ (Inv_init c)
 
 theorem run_append {O : Oracle} {c : Conf} : ∀ (ops : List Op) (s : State) (op : Op),
     run O c s (ops ++ [op]) = (step O c (run O c s ops) op).1 := by
@@ -475,13 +452,9 @@ theorem run_append {O : Oracle} {c : Conf} : ∀ (ops : List Op) (s : State) (op
   | nil => intro s op; rfl
   | cons o rest ih => intro s op; simp only [List.cons_append, run]; exact ih _ _
 
-theorem Reachable.step {O : Oracle} {c : Conf} {s : State} {op : Op} (h : Reachable O c s) (hw : op.wf) :
+theorem Reachable.step {O : Oracle} {c : Conf} {s : State} {op : Op} (h : Reachable O c s) :
     Reachable O c (step O c s op).1 := by
-  obtain ⟨ops, hws, rfl⟩ := h
-  refine ⟨ops ++ [op], ?_, run_append ops _ op⟩
-  intro o ho
-  rcases List.mem_append.1 ho with ho | ho
-  · exact hws o ho
-  · simp only [List.mem_singleton] at ho; subst ho; exact hw
+  obtain ⟨ops, rfl⟩ := h
+  exact ⟨ops ++ [op], run_append ops _ op⟩
 
 end AGH.C10
